@@ -25,7 +25,7 @@ func init() {
 			if tier == "quick" {
 				return 3200
 			}
-			return 16000
+			return 32000
 		},
 		Run:      runC12,
 		Required: []string{"solver.std_forward", "solver.std_recursive", "solver.fast_forward", "solver.fast_recursive", "solver.fast_relax", "nets.with_bias_that_matters", "nets.via_genesis", "nets.depth_ge_3"},
